@@ -11,7 +11,7 @@ use oracle::rng::mix;
 use serde_json::json;
 
 pub const ID: &str = "C16";
-pub const FAMS: [&str; 1] = ["cell"];
+pub const FAMS: [&str; 2] = ["cell", "crafted"];
 
 pub fn jobs(ctx: &Ctx) -> Vec<Job> {
     let mut jobs = Vec::new();
@@ -28,6 +28,16 @@ pub fn jobs(ctx: &Ctx) -> Vec<Job> {
                     jobs.push(Job { fam: FAMS[0], class, mode: Some(class), level: Some(level), version: Some(v), mask: rotate_mask(k as usize), len: if p == 0 { cap } else { mix(ctx.seed, k) as usize % (cap + 1) }, gen: (k % GEN_COUNT as u64) as usize, seed: mix(ctx.seed, k), ..Default::default() });
                 }
             }
+        }
+    }
+    // crafted byte payloads: with the matching forced mask the data area of the FINAL symbol is uniformly
+    // light (target = mask m) or uniformly dark (target = complement of mask m); plus stripes, 2x2 blocks,
+    // finder look-alikes: long runs and repeated chunks in the rows the renderer pairs up
+    for v in ctx.tier.pick(vec![1usize, 2, 3, 4, 5, 6, 7, 9, 12, 16, 21, 28, 35, 40], (1..=40).collect()) {
+        for t in 0..crate::craft::TARGET_COUNT {
+            k += 1;
+            let mask = if t < 16 { Some(t % 8) } else { rotate_mask(k as usize) };
+            jobs.push(Job::crafted(FAMS[1], crate::job::CRAFT_TARGET, t, v, (k % 4) as usize, mask, mix(ctx.seed, k)));
         }
     }
     jobs
@@ -87,6 +97,12 @@ pub fn observe(_ctx: &Ctx, st: &mut Stats, job: &Job) {
         Ok(n) => {
             st.count("cells_decoded_from_text", n);
             st.reach("sizes", qr.size as u64);
+            if job.fam == FAMS[1] {
+                st.count("crafted_symbols_rendered", 1);
+                let n = qr.size;
+                let dark = qr.data[..n * n].iter().filter(|m| m.value()).count();
+                st.max("max_dark_percent_of_a_rendered_symbol", (100 * dark / (n * n)) as u64);
+            }
             st.distinct(job.key(&cfg.input));
             st.sample(53, || json!({"options": cfg.describe(), "input": adapter::short_hex(&cfg.input), "lines": (qr.size + 1) / 2 + 1, "first_line": text.lines().nth(1).unwrap_or("")}));
         }
@@ -99,7 +115,7 @@ pub fn run(ctx: &Ctx) -> Report {
     let st = pool::run(&jobs, ctx.remaining(), |st, job, _| observe(ctx, st, job));
     let mut rep = Report::new(
         st,
-        "jobs = all 40 sizes x 4 levels x payloads (capacity-filling + random; thorough: x 8 mask slots), mask rotating over forced 0..7 and automatic; to_str() is split into lines, every character mapped to a (top, bottom) pair (space = dark/dark, U+2588 = light/light, U+2580 = light/dark, U+2584 = dark/light) and the resulting grid compared cell by cell with a one-module light border around the module values; jobs are executed in shuffled order and every second job first renders (and checks) a symbol of an unrelated size on the same thread, so each rendering happens after bigger and after smaller ones; distinct key = (options, len, payload hash); every case non-trivial",
+        "jobs = all 40 sizes x 4 levels x payloads (capacity-filling + random; thorough: x 8 mask slots), mask rotating over forced 0..7 and automatic; to_str() is split into lines, every character mapped to a (top, bottom) pair (space = dark/dark, U+2588 = light/light, U+2580 = light/dark, U+2584 = dark/light) and the resulting grid compared cell by cell with a one-module light border around the module values; crafted byte payloads make the data area of the final symbol uniformly dark / light / striped (24 targets x versions, with the matching forced mask); jobs are executed in shuffled order and every second job first renders (and checks) a symbol of an unrelated size on the same thread, so each rendering happens after bigger and after smaller ones; distinct key = (options, len, payload hash); every case non-trivial",
     );
     rep.expected_sets = vec![("sizes", 40)];
     rep.required_sets = vec![("sizes", 40)];
